@@ -25,4 +25,4 @@ PAIRS.append(RG("claim_field", "h_claim_field", unwind=14, mode="dfcc", loops="l
                 functions=["_mi_bitmap_try_find_claim_field", "mi_bitmap_mask_"]))
 import arena_common
 A = arena_common.pairs()
-PAIRS += [A["try_alloc_at"], A["arena_free"]]
+PAIRS += [A["try_alloc_at"], A["arena_free"], A["arena_try_purge"], A["purge_range"], A["arena_purge_seq"], A["bm_try_claim_seq"], A["bm_unclaim_seq"], A["bm_claim_seq"]]
